@@ -2,6 +2,7 @@ import Driver.Wire
 import Gopki.Model.Db
 import Gopki.Spec.X509
 import Gopki.Spec.Subject
+import Gopki.Model.Hash
 /-! `pki`: one sign run over a generated directory, replayed on the model.  For every generated
     certificate the model's DER (with the observed oracle values: fresh key, drawn serial, "now",
     signature bits) must equal the bytes gopki wrote, and the specification clauses of C01–C07 are
@@ -134,23 +135,6 @@ def keyMatchesAlg (k : KeyJ) (alg : Nat) : Bool :=
   | some (.inr oid) => k.keyType = 1 && k.curve = some oid
   | none => false
 
-structure PkiOut where
-  openErr : String
-  planErr : String
-  updateErr : String
-  panic : Option String
-  died : Bool
-  plan : List PlanJ
-  generated : Nat
-  writes : List String
-  t0 : Int
-  t1 : Int
-  pre : List PemJ
-  pems : List PemJ
-  keys : List KeyJ
-  nonPemUnchanged : Bool
-deriving FromJson
-
 structure CertCheck where
   alias_ : String
   ok : Bool
@@ -212,56 +196,97 @@ def specOnCert (der : Bytes) (eff : V1.CertificateContent) (cfgSubject : String)
       let _ := issuerFinal
       firstFail checks
 
-/-- replay of one run; returns the per-certificate verdicts and the first failing clause -/
-def opPki : OpFn := fun _ inp out => do
-  let tz ← inp.getObjValAs? Int "tz"
-  let files : List FileJ ← inp.getObjValAs? (List FileJ) "files"
-  let o : PkiOut ← fromJson? out
-  if o.panic.isSome then
-    return { corr := false, spec := false, clause := "C20: panic during sign run: " ++ o.panic.getD "", branch := "panic" }
+
+structure FaultJ where
+  atWrite : Nat
+  mode : String
+  keep : Nat
+deriving FromJson
+
+/-- what the harness observed of one Open / PlanBulkUpdate / BulkUpdate -/
+structure RunObs where
+  openErr : String
+  planErr : String
+  updateErr : String
+  panic : Option String
+  died : Bool
+  plan : List PlanJ
+  generated : Nat
+  writes : List String
+  t0 : Int
+  t1 : Int
+  nonPemUnchanged : Bool
+deriving FromJson
+
+structure RunVerdict where
+  corr : Bool := true
+  spec : Bool := true
+  clause : String := ""
+  branch : String := ""
+  feat : Json := Json.mkObj []
+  detail : Json := Json.null
+  planned : List String := []
+  ok : Bool := false            -- the run completed successfully
+
+def b64DecodeStr (s : String) : Option Bytes := V1.goB64Decode s.toUTF8.toList
+
+/-- the model's view of the directory before a run: `Open` -/
+def importState (tz : Int) (files : List FileJ) (pre : List PemJ) (ranks : String → Nat) (keys : List KeyJ)
+    (nowOf : String → String → Int) : Db.State × Bool × List String := Id.run do
   let sorted := (files.toArray.qsort (fun a b => walkLess a.path b.path)).toList
-  -- "now" as read at parse time: observed through the certificates; bracketed by the harness
-  let finalCert (alias_ : String) (path : String) : Option X509.Certificate :=
-    let _ := alias_
-    ((o.pems.find? (·.path = artifactFileName path)).bind (·.cert)).bind fun c =>
-      ((hexToBytes c.der).bind X509.decodeDer).bind X509.decCertificate
-  -- import
   let mut ents : List Db.Entity := []
   let mut profs : List V1.CertificateProfile := []
   let mut dup := false
-  let mut parseIssues : List String := []
-  let planned := o.plan.map (·.alias)
+  let mut issues : List String := []
   for f in sorted do
     if !isConfigName f.path then continue
     match f.kind, f.json with
     | "cert", some j =>
       match Wire.certConfig j with
-      | .error e => parseIssues := parseIssues ++ [f.path ++ ": " ++ e]
+      | .error e => issues := issues ++ [f.path ++ ": " ++ e]
       | .ok cfg =>
         let alias_ := if cfg.alias_.isEmpty then baseAlias f.path else cfg.alias_
-        let now := match finalCert alias_ f.path with
-          | some c => if planned.contains alias_ then c.tbs.notBefore else o.t0
-          | none => o.t0
-        match V1.initCertificate cfg now tz with
-        | .error e => parseIssues := parseIssues ++ [f.path ++ ": " ++ e]
+        match V1.initCertificate cfg (nowOf alias_ f.path) tz with
+        | .error e => issues := issues ++ [f.path ++ ": " ++ e]
         | .ok content =>
           let content := { content with alias_ := alias_ }
-          if (ents.any (·.alias_ = alias_)) then dup := true
-          else
-            let art := artifactOf o.pre o.keys (artifactFileName f.path)
-            let pemJ := o.pre.find? (·.path = artifactFileName f.path)
-            let meta_ : Db.Meta := { lastBuild := match pemJ with | some p => (p.mtime : Int) + 1 | none => 0,
-                                     lastConfigHash := none, lastConfigUpdate := 0 }
+          match ents.find? (·.alias_ = alias_) with
+          | some prev => if prev.configPath != f.path then dup := true
+          | none =>
+            let pemPath := artifactFileName f.path
+            let art := artifactOf pre keys pemPath
+            let pemJ := pre.find? (·.path = pemPath)
+            let meta_ : Db.Meta :=
+              { lastBuild := match pemJ with | some _ => (ranks pemPath : Int) + 1 | none => 0,
+                lastConfigHash := (pemJ.bind (·.hash)).bind b64DecodeStr,
+                lastConfigUpdate := (ranks f.path : Int) + 1 }
             ents := ents ++ [⟨alias_, f.path, content, art, meta_⟩]
     | "profile", some j =>
       match Wire.profileConfig j with
-      | .error e => parseIssues := parseIssues ++ [f.path ++ ": " ++ e]
+      | .error e => issues := issues ++ [f.path ++ ": " ++ e]
       | .ok pc =>
-        match V1.initProfile pc o.t0 tz with
-        | .error e => parseIssues := parseIssues ++ [f.path ++ ": " ++ e]
+        match V1.initProfile pc (nowOf "" f.path) tz with
+        | .error e => issues := issues ++ [f.path ++ ": " ++ e]
         | .ok p => profs := profs ++ [p]
     | _, _ => pure ()
-  let s0 : Db.State := ⟨ents, profs⟩
+  return (⟨ents, profs⟩, dup, issues)
+
+/-- replay of one run on the model, given the directory before (`pre`) and after (`post`) -/
+def replayRun (tz : Int) (files : List FileJ) (strat : Nat) (fault : Option FaultJ) (pre post : List PemJ)
+    (ranks : String → Nat) (keys : List KeyJ) (o : RunObs) : RunVerdict := Id.run do
+  if o.panic.isSome then
+    return { corr := false, spec := false, clause := "C20: panic during sign run: " ++ o.panic.getD "", branch := "panic" }
+  let planned := o.plan.map (·.alias)
+  let finalCert (path : String) : Option X509.Certificate :=
+    ((post.find? (·.path = artifactFileName path)).bind (·.cert)).bind fun c =>
+      ((hexToBytes c.der).bind X509.decodeDer).bind X509.decCertificate
+  -- "now" as read at parse time: observed through the certificate of a planned entity; bracketed below
+  let nowOf (alias_ path : String) : Int :=
+    match finalCert path with
+    | some c => if planned.contains alias_ then c.tbs.notBefore else o.t0
+    | none => o.t0
+  let (s0, dup, parseIssues) := importState tz files pre ranks keys nowOf
+  let ents := s0.entities
   -- Open
   let expectOpen := if dup then "duplicateAlias" else if !Db.isConsistent s0 then "inconsistent" else ""
   if expectOpen != o.openErr then
@@ -270,41 +295,57 @@ def opPki : OpFn := fun _ inp out => do
     let clean := o.writes.isEmpty && o.nonPemUnchanged
     return { corr := true, spec := clean, clause := if clean then "" else "C18: files written although the hierarchy was refused", branch := "open:" ++ expectOpen,
              feat := Json.mkObj [("open", expectOpen)] }
-  -- plan errors (validateAndMerge of every entity in BFS order)
-  let order := (Forest.bfs s0.ents (ents.length + 1) [] (Forest.roots s0.ents)).getD []
-  let mut expectPlan := ""
-  for a in order do
-    if expectPlan == "" then
-      match Db.validateAndMerge s0 a with
-      | .error e => expectPlan := errClassOf e
-      | .ok _ => pure ()
+  -- PlanBulkUpdate
+  let st := Db.Strategy.ofBits strat
+  let hashOf (c : V1.CertificateContent) : Bytes := (Hash.hashSum c tz).getD []
+  let modelPlan := Db.planBulkUpdate s0 st hashOf o.t0
+  let expectPlan := match modelPlan with | .error e => errClassOf e | .ok _ => ""
   if expectPlan != o.planErr then
     return { corr := false, spec := !(expectPlan != "" && o.planErr == ""), clause := s!"C09: PlanBulkUpdate returned '{o.planErr}', model expects '{expectPlan}'", branch := "plan" }
   if expectPlan != "" then
     let clean := o.writes.isEmpty && o.nonPemUnchanged
     return { corr := true, spec := clean, clause := if clean then "" else "C09: files written although planning failed", branch := "plan:" ++ expectPlan }
+  let mp := (modelPlan.toOption.getD []).map fun c => (c.alias_, if c.change == .replace then 2 else 1)
+  let ip := o.plan.map fun p => (p.alias, p.change)
+  if mp != ip then
+    return { corr := false, spec := false, clause := "C11: the set or order of regenerated entities differs from the enabled reasons",
+             branch := "plan", detail := Json.mkObj [("modelPlan", toJson (mp.map (·.1))), ("implPlan", toJson (ip.map (·.1)))],
+             feat := Json.mkObj [("strat", strat)] }
   -- BulkUpdate, replayed in plan order
   let mut s := s0
   let mut checks : List CertCheck := []
   let mut expectUpdate := ""
   let mut generatedAliases : List String := []
+  let mut writeIx : Nat := 0
   for pl in o.plan do
     if expectUpdate != "" then break
     match s.find pl.alias, Db.validateAndMerge s0 pl.alias with
     | some e, .ok eff =>
       s := s.update pl.alias fun x => { x with content := eff }       -- PutConfig(alias, EffectiveConfig)
       let pemPath := artifactFileName e.configPath
-      let pemJ := o.pems.find? (·.path = pemPath)
+      -- a fault at this write: error = nothing written; torn = a prefix; die = complete, then the process is gone
+      let faultHere := match fault with | some f => f.atWrite == writeIx | none => false
+      let faultMode := (fault.map (·.mode)).getD ""
+      if faultHere && faultMode == "error" then
+        -- GenerateArtifacts runs before the write: its errors come first
+        let dummyKey : Gen.PrivKey := ⟨0, 1, ⟨⟨[], none⟩, ⟨[], 0⟩⟩⟩
+        match Db.generateArtifacts s pl.alias ⟨1, dummyKey⟩ with
+        | .error err => expectUpdate := errClassOf err
+        | .ok _ => expectUpdate := "write"
+        break
+      let pemJ := post.find? (·.path = pemPath)
       let actualDer : Option Bytes := (pemJ.bind (·.cert)).bind fun c => hexToBytes c.der
       let actual : Option X509.Certificate := (actualDer.bind X509.decodeDer).bind X509.decCertificate
-      -- oracle values observed on the implementation's output
-      let freshKeyJ : Option KeyJ := (pemJ.bind (·.key)).bind fun k => o.keys.find? (·.id = k.id.toNat)
+      let freshKeyJ : Option KeyJ := (pemJ.bind (·.key)).bind fun k => keys.find? (·.id = k.id.toNat)
       let dummyKey : Gen.PrivKey := ⟨0, 1, ⟨⟨[], none⟩, ⟨[], 0⟩⟩⟩
       let oracle : Gen.Oracle := ⟨((actual.bind fun c => X509.decInt c.tbs.serialContent).getD 0).toNat, (freshKeyJ.bind KeyJ.toPriv).getD dummyKey⟩
       match Db.generateArtifacts s pl.alias oracle with
-      | .error err =>
-        expectUpdate := errClassOf err
+      | .error err => expectUpdate := errClassOf err
       | .ok g =>
+        writeIx := writeIx + 1
+        if faultHere && faultMode == "torn" then
+          expectUpdate := "died"
+          break
         generatedAliases := generatedAliases ++ [pl.alias]
         match actual, actualDer with
         | some c, some der =>
@@ -317,7 +358,7 @@ def opPki : OpFn := fun _ inp out => do
             let ct ← Gen.certTlv ⟨tbs, outer, sigBits⟩
             pure ct.enc
           let fresh := e.art.key.isNone && e.art.request.isNone
-          let keyOk := !fresh || (match freshKeyJ with | some k => keyMatchesAlg k eff.keyAlgorithm && !(o.pre.any fun p => (p.key.map (·.id)) == some (k.id : Int)) | none => false)
+          let keyOk := !fresh || (match freshKeyJ with | some k => keyMatchesAlg k eff.keyAlgorithm && !(pre.any fun p => (p.key.map (·.id)) == some (k.id : Int)) | none => false)
           let serialOk := eff.serialNumber != 0 || (oracle.serial < 2 ^ 159)
           let nowOk := eff.validity.isStatic || (o.t0 - 1 ≤ c.tbs.notBefore && c.tbs.notBefore ≤ o.t1)
           let same := modelDer.toOption == some der
@@ -325,84 +366,115 @@ def opPki : OpFn := fun _ inp out => do
           if !keyOk then checks := checks ++ [⟨pl.alias, false, "C05: generated key is not of the configured key algorithm (or not fresh)", Json.null⟩]
           if !serialOk then checks := checks ++ [⟨pl.alias, false, "C02: drawn serial number out of range", Json.null⟩]
           if !nowOk then checks := checks ++ [⟨pl.alias, false, "C04: notBefore of a run-relative validity is not the time of the run", Json.null⟩]
-          -- key reuse (C14)
           let keyKept := match e.art.key with | some k => (pemJ.bind (·.key)).map (·.id) == some (k.id : Int) | none => true
           if !keyKept then checks := checks ++ [⟨pl.alias, false, "C14: stored private key was not kept", Json.null⟩]
           let csrKept := match e.art.request with
             | some (_, id) => e.art.key.isSome || ((pemJ.bind (·.csr)).map (·.id) == some (id : Int) && (pemJ.bind (·.key)).isNone && (pemJ.bind (·.cert)).map (·.subjectKey) == some (id : Int))
             | none => true
           if !csrKept then checks := checks ++ [⟨pl.alias, false, "C14: certificate request not honoured (public key, request kept, no key written)", Json.null⟩]
-          -- state after PutBuildArtifact
+          -- the hash line written with the certificate is the hash of the effective configuration
+          let wantHash := ((Hash.hashSum eff tz).map fun h => (String.fromUTF8? ⟨(B64.enc h).toArray⟩).getD "")
+          if (pemJ.bind (·.hash)) != wantHash then
+            checks := checks ++ [⟨pl.alias, false, "C13: stored hash line is not the hash of the effective configuration", Json.mkObj [("want", toJson wantHash)]⟩]
           let subjKeyId := ((pemJ.bind (·.cert)).map (·.subjectKey)).getD 0
           let ci : Db.CertInfo := ⟨der, g.tbs.subject, g.tbs.spki.bits.bytes, g.tbs.notAfter, subjKeyId.toNat⟩
           s := s.update pl.alias fun x => { x with art := { cert := some ci, key := g.key, request := x.art.request } }
+          if faultHere && faultMode == "die" then
+            expectUpdate := "died"
         | _, _ =>
           checks := checks ++ [⟨pl.alias, false, "planned entity has no decodable certificate after the run", Json.null⟩]
     | _, _ => checks := checks ++ [⟨pl.alias, false, "planned alias unknown to the model", Json.null⟩]
-  let corrErr := expectUpdate == o.updateErr || (o.updateErr.startsWith "other:" && expectUpdate == "other")
-  -- specification clauses on the final directory
+  let implUpdate := if o.died then "died" else o.updateErr
+  let corrErr := expectUpdate == implUpdate || (implUpdate.startsWith "other:" && expectUpdate == "other")
+  -- untouched files: everything that is not a generated entity's artifact is as before
+  let genPaths := generatedAliases.filterMap fun a => (s0.find a).map fun e => artifactFileName e.configPath
+  let tornPath : Option String := match fault with
+    | some f => if f.mode == "torn" then ((o.plan.drop f.atWrite).head?.bind fun pl => (s0.find pl.alias).map fun e => artifactFileName e.configPath) else none
+    | none => none
+  let untouchedOk := pre.all fun p => genPaths.contains p.path || some p.path == tornPath ||
+    (match post.find? (·.path = p.path) with
+     | some q => (q.cert.map (·.der)) == (p.cert.map (·.der)) && q.hash == p.hash && (q.key.map (·.pkcs8)) == (p.key.map (·.pkcs8)) && ranks p.path == ranks p.path
+     | none => false)
+  -- specification clauses on the directory after a completed run
   let mut specFail : Option String := none
-  if o.updateErr == "" && !o.died then
+  if !untouchedOk then specFail := some "C10: an artifact that was not planned was modified or removed"
+  if implUpdate == "" then
     for pl in o.plan do
       if specFail.isSome then break
       match s0.find pl.alias, Db.validateAndMerge s0 pl.alias with
       | some e, .ok eff =>
-        let pemJ := o.pems.find? (·.path = artifactFileName e.configPath)
+        let pemJ := post.find? (·.path = artifactFileName e.configPath)
         match (pemJ.bind (·.cert)) with
         | some cj =>
           let der := (hexToBytes cj.der).getD []
           let self := eff.issuer.isEmpty
           let issuerEnt := s0.find eff.issuer
-          let issuerPem := issuerEnt.bind fun i => o.pems.find? (·.path = artifactFileName i.configPath)
+          let issuerPem := issuerEnt.bind fun i => post.find? (·.path = artifactFileName i.configPath)
           let issuerDer := (issuerPem.bind (·.cert)).bind fun c => hexToBytes c.der
-          -- the key the signature must verify under: the public key in the issuer's current certificate; when that
-          -- certificate's key fields are manipulated (C19), the issuer's real key
           let issuerManip := match issuerEnt with
             | some i => i.content.manipulations.tbsPublicKey.isSome || i.content.manipulations.tbsPublicKeyAlgorithm.isSome
             | none => false
           let ownManip := eff.manipulations.tbsPublicKey.isSome || eff.manipulations.tbsPublicKeyAlgorithm.isSome
           let realKey (p : Option PemJ) : Option Nat := (p.bind (·.key)).map (·.id.toNat)
+          -- the issuer's real key where its file holds one (for a coherent artifact that is the key in its
+          -- certificate; manipulated or user-supplied incoherent issuer files are signed with the real key)
+          let _ := issuerManip
           let issuerKeyId : Option Nat :=
-            if self then (if ownManip then realKey pemJ else some cj.subjectKey.toNat)
-            else if issuerManip then realKey issuerPem else (issuerPem.bind (·.cert)).map (·.subjectKey.toNat)
-          -- coherence: an unmanipulated certificate carries the public key of the key stored next to it
+            if self then (match realKey pemJ with | some k => some k | none => some cj.subjectKey.toNat)
+            else match realKey issuerPem with | some k => some k | none => (issuerPem.bind (·.cert)).map (·.subjectKey.toNat)
           if !ownManip && (match realKey pemJ with | some k => k != cj.subjectKey.toNat | none => false) then
             specFail := some "C05: certificate does not carry the public key of the stored private key"
           let m := eff.manipulations
           let hasManip := m.version.isSome || m.signatureAlgorithm.isSome || m.signatureValue.isSome || m.tbsSignature.isSome || m.tbsPublicKeyAlgorithm.isSome || m.tbsPublicKey.isSome
-          -- the effective configuration the model used had "now" substituted for run-relative validity
           let eff' := match (s.find pl.alias) with | some x => x.content | none => eff
           let cfgSubject := match (files.find? (·.path = e.configPath)).bind (·.json) with | some j => Wire.optStr j "subject" | none => ""
           if specFail.isNone then
             specFail := specOnCert der eff' cfgSubject hasManip none issuerDer self (cj.verifiesUnder.getD []) issuerKeyId
-          -- every entity of the plan has key material afterwards
           if specFail.isNone && (pemJ.bind (·.key)).isNone && (pemJ.bind (·.csr)).isNone then
             specFail := some "C12: generated entity has no key material"
           if specFail.isNone && (pemJ.map (·.hash)).getD none == none then
             specFail := some "C10: generated file carries no configuration hash line"
         | none => specFail := some "planned entity has no certificate after a successful run"
       | _, _ => pure ()
-    -- writes: only the artifact files of generated entities
-    let allowed := o.plan.filterMap fun pl => (s0.find pl.alias).map fun e => artifactFileName e.configPath
-    if specFail.isNone && !(o.writes.all allowed.contains) then specFail := some "C10: a file other than the planned artifact files was written"
-    if specFail.isNone && !o.nonPemUnchanged then specFail := some "C10: a configuration, profile or unrelated file was modified or created"
-  else if o.updateErr != "" && expectUpdate == "keyMismatch" then
-    -- C01: a signature algorithm that does not fit the signing key makes the run fail instead of producing a certificate
-    pure ()
+  let allowed := o.plan.filterMap fun pl => (s0.find pl.alias).map fun e => artifactFileName e.configPath
+  if specFail.isNone && !(o.writes.all allowed.contains) then specFail := some "C10: a file other than the planned artifact files was written"
+  if specFail.isNone && !o.nonPemUnchanged then specFail := some "C10: a configuration, profile or unrelated file was modified or created"
+  if specFail.isNone && fault.isSome && (fault.map (·.mode)) == some "error" && expectUpdate == "write" && o.updateErr != "write" then
+    specFail := some "C15: a write error was not reported as a failed run"
   let badCheck := checks.find? (!·.ok)
   let specClause := match specFail with
     | some c => c
     | none => match badCheck with
       | some b => if b.clause.startsWith "C" then b.clause else ""
       | none => ""
-  let corr := corrErr && (checks.all (·.ok)) && parseIssues.isEmpty
+  let corr := corrErr && (checks.all (·.ok))
   let clause := if specClause != "" then specClause
-    else if !corrErr then s!"BulkUpdate returned '{o.updateErr}', model expects '{expectUpdate}'"
-    else match badCheck with | some b => s!"{b.alias_}: {b.clause}" | none => if parseIssues.isEmpty then "" else "model rejects a configuration: " ++ (parseIssues.headD "")
+    else if !corrErr then s!"BulkUpdate ended with '{implUpdate}', model expects '{expectUpdate}'"
+    else match badCheck with | some b => s!"{b.alias_}: {b.clause}" | none => ""
+  let _ := parseIssues
   let nExt : Nat := (s.entities.map (fun x => x.content.extensions.length)).foldl Nat.add 0
-  pure { corr := corr, spec := specClause == "", clause := clause,
-         nontrivial := !o.plan.isEmpty, branch := s!"gen{o.plan.length}" ++ (if o.updateErr != "" then ":" ++ expectUpdate else ""),
-         model := Json.mkObj [("generated", toJson generatedAliases), ("detail", match badCheck with | some b => b.detail | none => Json.null)],
-         feat := Json.mkObj [("entities", ents.length), ("extensions", nExt), ("updateErr", o.updateErr)] }
+  return { corr := corr, spec := specClause == "", clause := clause,
+           branch := s!"gen{o.plan.length}" ++ (if implUpdate != "" then ":" ++ expectUpdate else ""),
+           detail := Json.mkObj [("generated", toJson generatedAliases), ("detail", match badCheck with | some b => b.detail | none => Json.null)],
+           feat := Json.mkObj [("entities", ents.length), ("extensions", nExt), ("updateErr", implUpdate), ("strat", strat)],
+           planned := planned, ok := implUpdate == "" }
+
+def ranksOf (j : Json) (k : String) : String → Nat :=
+  match j.getObjVal? k with
+  | .ok r => fun p => (r.getObjValAs? Nat p).toOption.getD 0
+  | .error _ => fun _ => 0
+
+/-- `pki`: one run over a generated directory -/
+def opPki : OpFn := fun _ inp out => do
+  let tz ← inp.getObjValAs? Int "tz"
+  let strat ← inp.getObjValAs? Nat "strat"
+  let files : List FileJ ← inp.getObjValAs? (List FileJ) "files"
+  let fault : Option FaultJ := (inp.getObjValAs? FaultJ "fault").toOption
+  let o : RunObs ← fromJson? out
+  let pre : List PemJ ← out.getObjValAs? (List PemJ) "pre"
+  let post : List PemJ ← out.getObjValAs? (List PemJ) "pems"
+  let keys : List KeyJ ← out.getObjValAs? (List KeyJ) "keys"
+  let v := replayRun tz files strat fault pre post (ranksOf out "ranksPre") keys o
+  pure { corr := v.corr, spec := v.spec, clause := v.clause, nontrivial := !v.planned.isEmpty, branch := v.branch, model := v.detail, feat := v.feat }
 
 end Driver
